@@ -635,7 +635,11 @@ def stmt(draw, env, depth, loop=False, in_sub=False):
         if nc is None:
             return draw(simple_stmt(env))
         subj = draw(nc)
-        consts = draw(st.lists(st.integers(0, (1 << env.W) - 1), min_size=1, max_size=3, unique=True))
+        # patterns may repeat (Python: the first matching case wins, later duplicates are dead code)
+        pool = draw(st.lists(st.integers(0, (1 << env.W) - 1), min_size=1, max_size=3, unique=True))
+        consts = list(pool)
+        if draw(st.integers(0, 3)) == 0:
+            consts.insert(draw(st.integers(1, len(consts))), draw(st.sampled_from(pool)))
         cases = [[c, draw(block(env, depth - 1, max_size=2, loop=False, in_sub=False))] for c in consts]
         dflt = draw(st.one_of(st.none(), block(env, depth - 1, max_size=2, loop=False, in_sub=False)))
         return {"k": "match", "e": subj, "cases": cases, "default": dflt}
